@@ -1,5 +1,5 @@
 /-
-For SIMPLE programs (no label, no named function expression; catch clauses allowed): the walk facts (Proofs/ObfFacts.lean) and the
+For every program (function, catch, function-expression-name and label records): the walk facts (Proofs/ObfFacts.lean) and the
 proved invariants of every scope record (`ChainGood`) imply the site conditions `condVal` of the renaming simulation.
 Part 1: what the facts give at a single site, entering a catch clause, and the hoisting conditions.
 -/
@@ -21,16 +21,27 @@ theorem resolveTables_entries : ∀ (C : List Anc) (n : String), resolveTables (
       resolveTables_entries C n]
 
 theorem al_ne_nil {τ : Tau} {E : List Layer} {C : List Anc} (h : Al τ E C) : C ≠ [] := by
-  cases h <;> simp
+  induction h with
+  | root => simp
+  | func => simp
+  | «catch» => simp
+  | self _ _ _ _ _ _ _ ih => exact ih
 
 section
 variable (fin : Final)
+
+/-- a label in scope: it is renamed by what `resolve` answers in the scope its Identifier is registered in -/
+def LabelOK (x : String × SPath × List Anc) : Prop :=
+  (∀ m, tauN (tauFin fin) .label x.2.1 m = resolveChain x.2.2 m) ∧ x.1 ∈ ckeys (effRefs x.2.2) ∧ ChainGood x.2.2
 
 /-- the Spec context `ctx` and the scope `mc` a site is registered in belong together -/
 structure Inv (ctx : Ctx) (mc : MCtx) : Prop where
   al : Al (tauFin fin) ctx.env mc.chain
   var : varLayer ctx.env = some (ctx.varKind, ctx.varScope)
   chains : lookupChain fin.chains mc.sid = some (entriesOf mc.chain)
+  env : mc.env = ctx.env
+  labels : mc.labels.map (fun x => (x.1, x.2.1)) = ctx.labels
+  lblOK : ∀ x ∈ mc.labels, LabelOK fin x
 
 variable {fin}
 
@@ -43,9 +54,10 @@ theorem rho_at {ctx : Ctx} {mc : MCtx} (hi : Inv fin ctx mc) {q : Path}
 theorem refSite_refCond {ctx : Ctx} {mc : MCtx} (hi : Inv fin ctx mc) {q : Path} {n : String}
     (h : refSite fin mc q n = true) : refCond (tauFin fin) ctx.env n (rhoFin fin q n) = true := by
   simp only [refSite, Bool.and_eq_true, beq_iff_eq] at h
-  rw [rho_at hi h.1]
-  have hk : n ∈ ckeys (effRefs mc.chain) := by simpa using h.2
-  simpa [refCond] using lookup_link (tauFin fin) hi.al n hk
+  rw [rho_at hi h.1.1]
+  have hk : n ∈ ckeys (effRefs mc.chain) := by simpa using h.1.2
+  have hx : noExtra ctx.env mc.chain n = true := by rw [← hi.env]; exact h.2
+  simpa [refCond] using lookup_link (tauFin fin) hi.al n hk hx
 
 /-- a declaration site is renamed by the variable environment of its context -/
 theorem declSite_eq {ctx : Ctx} {mc : MCtx} (hi : Inv fin ctx mc) {q : Path} {n : String}
@@ -88,6 +100,13 @@ theorem al_catch_inv {τ : Tau} {p : SPath} {c : String} {E' : List Layer} {C' :
   cases h with
   | «catch» _ _ u _ K C hk htau hg hC hal => exact ⟨K, C, u, rfl, hk, htau, hg, hC, hal⟩
 
+theorem al_func_inv {τ : Tau} {p : SPath} {names : List String} {E' : List Layer} {C' : List Anc}
+    (h : Al τ ({ kind := .var, scope := p, names := names } :: E') C') :
+    ∃ A C, C' = A :: C ∧ A.kind = .func ∧ (∀ x, x ∈ names → x ∈ A.decl) ∧
+      (∀ n, tauN τ .var p n = applyTable A.remapped n) ∧ ChainGood (A :: C) ∧ C ≠ [] ∧ Al τ E' C := by
+  cases h with
+  | func _ _ _ A C hk hnames htau hg hC hal => exact ⟨A, C, rfl, hk, hnames, htau, hg, hC, hal⟩
+
 /-- the parameter of a catch clause is renamed by the catch record -/
 theorem catchSite_eq {ctx : Ctx} {mc : MCtx} (hi : Inv fin ctx mc) {p : SPath} {c : String} {E' : List Layer}
     (he : ctx.env = { kind := .catch, scope := p, names := [c] } :: E') {q : Path} {n : String}
@@ -102,6 +121,70 @@ theorem catchSite_eq {ctx : Ctx} {mc : MCtx} (hi : Inv fin ctx mc) {p : SPath} {
   obtain ⟨v, _, _, hrv, hav⟩ := resolve_catch hk hg
   rw [← h2, hrv, htau, hav]
 
+/-- stripping catch scopes that do not bind `n` changes neither what `resolve(n)` answers nor whether `n` is a key -/
+theorem catchSuffix_resolve {τ : Tau} : ∀ {E : List Layer} {C : List Anc}, Al τ E C → ∀ (Cd : List Anc) (n : String),
+    catchSuffix C Cd n = true →
+    resolveChain C n = resolveChain Cd n ∧ (n ∈ ckeys (effRefs C) → n ∈ ckeys (effRefs Cd)) := by
+  intro E C h
+  induction h with
+  | root names A hk _ _ _ =>
+    intro Cd n hs
+    simp only [catchSuffix, hk] at hs
+    by_cases he : [A] = Cd
+    · subst he; exact ⟨rfl, id⟩
+    · simp [he] at hs
+  | func p names E A C hk _ _ _ _ _ _ =>
+    intro Cd n hs
+    simp only [catchSuffix, hk] at hs
+    by_cases he : A :: C = Cd
+    · subst he; exact ⟨rfl, id⟩
+    · simp [he] at hs
+  | «catch» p c u E K C hk _ hg _ _ ih =>
+    intro Cd n hs
+    simp only [catchSuffix, hk] at hs
+    by_cases he : K :: C = Cd
+    · subst he; exact ⟨rfl, id⟩
+    · simp only [he, if_false, Bool.and_eq_true, bne_iff_ne, ne_eq] at hs
+      have hn : n ≠ c := fun h => hs.1 h.symm
+      obtain ⟨h1, h2⟩ := ih Cd n hs.2
+      refine ⟨by rw [resolve_through_catch hk hg hn, h1], fun hkey => h2 ?_⟩
+      rcases (effRefs_catch_keys hk).1 hkey with h | h
+      · exact absurd h hn
+      · exact h
+  | self p g E C _ _ _ ih => exact ih
+
+/-- **the link for labels**: a labelled jump finds, among the renamed labels, the image of the label it targets -/
+theorem labelRef_link {C : List Anc} {E : List Layer} (hal : Al (tauFin fin) E C) (n : String) (hkey : n ∈ ckeys (effRefs C)) :
+    ∀ (L : List (String × SPath × List Anc)), (∀ x ∈ L, LabelOK fin x) → labelRefOK C L n = true →
+    lookupLabel (mapLabels (tauFin fin) (L.map (fun x => (x.1, x.2.1)))) (resolveChain C n)
+      = mapBinder (tauFin fin) (lookupLabel (L.map (fun x => (x.1, x.2.1))) n)
+  | [], _, h => by
+    have e : resolveChain C n = n := by simpa [labelRefOK] using h
+    simp [mapLabels, lookupLabel, mapBinder, tauN, e]
+  | (y, py, Cy) :: rest, hok, h => by
+    simp only [labelRefOK, Bool.and_eq_true, Bool.or_eq_true, beq_iff_eq] at h
+    obtain ⟨hres, hk2⟩ := catchSuffix_resolve hal Cy n h.1
+    obtain ⟨htau, hykey, hg⟩ := hok (y, py, Cy) (List.mem_cons_self ..)
+    simp only at htau hykey hg
+    simp only [List.map_cons, mapLabels, lookupLabel]
+    by_cases hyn : y = n
+    · subst hyn
+      simp [htau y, hres, mapBinder]
+    · have hne : (tauN (tauFin fin) .label py y == resolveChain C n) = false := by
+        apply Bool.eq_false_iff.2
+        intro hcon
+        have heq : resolveChain Cy y = resolveChain Cy n := by
+          rw [← htau y, ← hres]; simpa using hcon
+        exact hyn (hg.ok.inj y hykey n (hk2 hkey) heq)
+      have hne2 : (y == n) = false := by simpa using hyn
+      simp only [hne, hne2, Bool.false_eq_true, if_false]
+      have hrest : labelRefOK C rest n = true := by
+        rcases h.2 with h2 | h2
+        · exact absurd h2 hyn
+        · exact h2
+      have := labelRef_link hal n hkey rest (fun x hx => hok x (List.mem_cons_of_mem _ hx)) hrest
+      simpa [mapLabels] using this
+
 /-- the record of a catch clause: the invariant for the environment extended by the catch record -/
 theorem catchRec_inv (recs : List Rec) (hgood : ∀ R ∈ recs, ChainGood R.chain) {ctx : Ctx} {mc : MCtx}
     (hi : Inv fin ctx mc) (path : Path) (as : List (String × Val)) (mc' : MCtx)
@@ -109,7 +192,9 @@ theorem catchRec_inv (recs : List Rec) (hgood : ∀ R ∈ recs, ChainGood R.chai
     ∃ c, identAttrOf' as = some c ∧
       Inv fin { ctx with env := { kind := .catch, scope := path.reverse, names := [c] } :: ctx.env } mc' ∧
       ∃ R K, recs.find? (fun r => r.node == some path) = some R ∧ R.chain = K :: mc.chain ∧
-        mc' = { sid := R.id, chain := K :: mc.chain } ∧ (∃ u, K.kind = .catch c u) ∧
+        mc' = { sid := R.id, chain := K :: mc.chain,
+                env := { kind := .catch, scope := path.reverse, names := [c] } :: mc.env, labels := mc.labels } ∧
+        (∃ u, K.kind = .catch c u) ∧
         identSiteCond (tauFin fin) (rhoFin fin) .catch path.reverse path as = true := by
   unfold catchRec at h
   cases hc : identAttrOf' as with
@@ -153,7 +238,7 @@ theorem catchRec_inv (recs : List Rec) (hgood : ∀ R ∈ recs, ChainGood R.chai
             have e : tauN (tauFin fin) .catch path.reverse n
                 = applyTable ((tablesOfNode fin path.reverse).headD (true, [])).2 n := rfl
             rw [e, htab]
-          refine ⟨c, rfl, ⟨?_, ?_, hch⟩, R, K, rfl, hRC, rfl, ⟨u, hk⟩, ?_⟩
+          refine ⟨c, rfl, ⟨?_, ?_, hch, by rw [hi.env], hi.labels, hi.lblOK⟩, R, K, rfl, hRC, rfl, ⟨u, hk⟩, ?_⟩
           rotate_left 2
           · unfold identSiteCond
             unfold identAttrOf' at hc
@@ -167,7 +252,8 @@ theorem catchRec_inv (recs : List Rec) (hgood : ∀ R ∈ recs, ChainGood R.chai
               simp only [rhoFin, hid, hch, resolveTables_entries]
               rw [hrv, htau, hav]
           · exact .catch path.reverse c u ctx.env K mc.chain hk htau hg (al_ne_nil hi.al) hi.al
-          · simp only [varLayer, beq_self_eq_true, if_true]
+          · have hkc : (BKind.catch == BKind.catch || BKind.catch == BKind.self) = true := by decide
+            simp only [varLayer, hkc, if_true]
             exact hi.var
         · rw [if_neg hall] at h; cases h
 
